@@ -109,14 +109,14 @@ pub fn deser_line(l: &str) -> String {
                 if a.starts_with("panic") { bad.push(a.clone()); }
                 let mut numeric = false;
                 for tmpl in ["{} 2", "{} to hex", "{} + 1 day", "{} + 3 days", "{} + 400 days", "{} - 1 day", "{} - 400 days", "{} - 1 month", "{} - 13 months", "{} - 1 year", "{} + 1", "{} * {}", "-{}", "{} to fraction", "{} to 3 sf", "sqrt {}", "{} == {}", "roll {}"] {
-                    let r = ev_ms(&mut c.clone(), &tmpl.replace("{}", name), 40);
+                    let r = ev_ms(&mut c.clone(), &tmpl.replace("{}", name), 12);
                     if r.starts_with("panic") { bad.push(format!("`{}`: {r}", tmpl.replace("{}", name))); }
                     if tmpl == "{} + 1" && r.starts_with("ok") { numeric = true; }
                 }
                 if numeric {
                     // numbers and distributions: every consumer of numerator / denominator / outcome lists
                     for tmpl in ["log2 {}", "ln {}", "{} to float", "1 / {}", "{}^2", "{}^-1", "{} mod 3", "floor {}", "round {}", "{} to 5 dp", "{} to words", "{} to mixed_fraction", "{} / {}", "{} - {}", "abs {}", "{}!", "{} to binary", "real {}", "{} to m", "{} 1 kg", "sin {}"] {
-                        let r = ev_ms(&mut c.clone(), &tmpl.replace("{}", name), 20);
+                        let r = ev_ms(&mut c.clone(), &tmpl.replace("{}", name), 6);
                         if r.starts_with("panic") { bad.push(format!("`{}`: {r}", tmpl.replace("{}", name))); }
                     }
                 }
